@@ -283,7 +283,7 @@ func runDeferred(f *frame, val []reflect.Value) {
 			f.recovered = r
 		}
 	}()
-	val[0].Call(val[1:])
+	callVariadic(val[0], val[1:])
 }
 
 func stripReceiverFromArgs(signature string) (string, error) {
@@ -1370,9 +1370,12 @@ func call(n *node) {
 			// Lambda definitions are necessary here. Due to reflect internals,
 			// having `callf = bf.Call` or `callf = bf.CallSlice` does not work.
 			//nolint:gocritic
-			if hasVariadicArgs {
+			switch {
+			case hasVariadicArgs:
 				callf = func(in []reflect.Value) []reflect.Value { return bf.CallSlice(in) }
-			} else {
+			case variadic >= 0:
+				callf = func(in []reflect.Value) []reflect.Value { return callVariadic(bf, in) }
+			default:
 				callf = func(in []reflect.Value) []reflect.Value { return bf.Call(in) }
 			}
 
@@ -1538,8 +1541,11 @@ func callBin(n *node) {
 
 	// Determine if we should use `Call` or `CallSlice` on the function Value.
 	callFn := func(v reflect.Value, in []reflect.Value) []reflect.Value { return v.Call(in) }
-	if n.action == aCallSlice {
+	switch {
+	case n.action == aCallSlice:
 		callFn = func(v reflect.Value, in []reflect.Value) []reflect.Value { return v.CallSlice(in) }
+	case variadic >= 0:
+		callFn = callVariadic
 	}
 
 	for i, c := range child {
@@ -1748,6 +1754,15 @@ func callBin(n *node) {
 			}
 		}
 	}
+}
+
+// callVariadic calls the variadic function v. Without variadic arguments, the
+// function gets a nil slice, as in compiled code, where Call allocates an empty one.
+func callVariadic(v reflect.Value, in []reflect.Value) []reflect.Value {
+	if t := v.Type(); t.IsVariadic() && len(in) == t.NumIn()-1 {
+		return v.CallSlice(append(in, reflect.Zero(t.In(len(in)))))
+	}
+	return v.Call(in)
 }
 
 func getIndexBinMethod(n *node) {
